@@ -77,7 +77,13 @@ func setup(repo string) (*Engine, error) {
 	if extraTrusted != nil && *extraTrusted != "" {
 		extra = append(extra, *extraTrusted)
 	}
-	e, err := newEngine(repo, filepath.Join(verifDir, "lib", "trusted"), extra...)
+	trustedDir := filepath.Join(verifDir, "lib", "trusted")
+	if d := os.Getenv("NSQVC_TRUSTED_DIR"); d != "" {
+		// development aid for contract authors working on a scratch copy: a private copy of lib/trusted.
+		// The registered checks never set it.
+		trustedDir = d
+	}
+	e, err := newEngine(repo, trustedDir, extra...)
 	if err != nil {
 		return nil, err
 	}
@@ -256,7 +262,12 @@ func runCheck(repo, prop, tier, fnFilter, outDir string, noReplay, verbose bool)
 	rep.WallS = time.Since(start).Seconds()
 	rep.print(verbose)
 	if fnFilter == "" {
-		if err := rep.writeEvidence(filepath.Join(verifDir, "evidence", prop+".json")); err != nil {
+		evDir := filepath.Join(verifDir, "evidence")
+		if repo != "/repo" {
+			evDir = filepath.Join(outDir, "evidence") // scratch copies never touch the committed evidence
+			os.MkdirAll(evDir, 0o755)
+		}
+		if err := rep.writeEvidence(filepath.Join(evDir, prop+".json")); err != nil {
 			fmt.Fprintln(os.Stderr, "nsqvc: cannot write evidence:", err)
 			return 2
 		}
